@@ -34,10 +34,12 @@ CONFIGS = {
     "C13": {
         "quick": [("Asm.tla", "Asm_sym_q.cfg", 2), ("Asm.tla", "Asm_chunk_q.cfg", 2),
                   ("Asm.tla", "Asm_chunk2_q.cfg", 2), ("Asm.tla", "Asm_asg_q.cfg", 2),
+                  ("Asm.tla", "Asm_attr_q.cfg", 1.5),
                   ("Asm.tla", "Asm_strc_q.cfg", 1), ("AsmRw.tla", "AsmRw_q.cfg", 0)],
         "thorough": [("Asm.tla", "Asm_sym_t.cfg", 2), ("Asm.tla", "Asm_chunk_t.cfg", 2),
                      ("Asm.tla", "Asm_chunk2_t.cfg", 2), ("Asm.tla", "Asm_mini5_t.cfg", 1),
                      ("Asm.tla", "Asm_asg_t.cfg", 2), ("Asm.tla", "Asm_strc_t.cfg", 1),
+                     ("Asm.tla", "Asm_attr_t.cfg", 1.5),
                      ("AsmRw.tla", "AsmRw_t.cfg", 0)],
     },
 }
@@ -114,7 +116,11 @@ def sample_cases(src: str, out, n: int, rng: random.Random, prop: str, tier: str
         if any(t["k"] in OPS_KINDS for t in c["toks"]) or c.get("misa") in ("arm64", "mips32"):
             # operand forms of ARM64 / MIPS32: the ISA the model explored
             isa, fmt, syn, pie = c["misa"], ("elf", "pe")[i % 2], "att", False
-        c.update(id=f"{prop}-{i}", isa=isa, fmt=fmt, syn=syn, pie=pie, sfx="_7")
+        # spelling of the direct transfers (harness/asm/runner.py ALT); every other case canonical
+        if any(t["k"] == "attr" for t in c["toks"]):
+            fmt = "elf"         # symbol-attribute directives are an ELF feature
+        c.update(id=f"{prop}-{i}", isa=isa, fmt=fmt, syn=syn, pie=pie, sfx="_7",
+                 sp=(i // 2) % 4 if i % 2 else 0)
         for t in c["toks"]:
             t.pop("vc", None)
         nchunks = max((t["ch"] for t in c["toks"]), default=1)
